@@ -21,8 +21,8 @@ MANIFEST = {
     'note': 'Trusted: engine, vf.symcbor, independent writer/reader, z3. Cryptographic verification itself is '
             'abstracted by the nondeterministic outcome (C03/C16 look at what is fed to COSE).',
     'ref': '5 C12'}
-BOUNDS = {'quick': dict(security_blocks='0..2 BIB x 0..2 BCB', outcomes='None | code in [12,16] | raise', real_malformations=7),
-          'thorough': dict(security_blocks='0..2 BIB x 0..2 BCB', outcomes='as quick', real_malformations=7)}
+BOUNDS = {'quick': dict(security_blocks='0..2 BIB x 0..2 BCB', outcomes='None | code in [12,16] | raise', real_malformations=9),
+          'thorough': dict(security_blocks='0..2 BIB x 0..2 BCB', outcomes='as quick', real_malformations=9)}
 ASSUMPTIONS = [
     'a security context reports failure by a reason code from the BPSec range 12..16 or by raising',
     'the bundle requests a deletion report to a real endpoint so that the recorded reason is observable',
@@ -42,7 +42,8 @@ def cases(tier):
                 if nbib + nbcb == 0 and accept:
                     continue
                 out.append(dict(kind='stub', nbib=nbib, nbcb=nbcb, accept=accept))
-    for m in ('unknown-context', 'missing-target', 'dup-param', 'dup-result', 'result-count', 'garbage-cose', 'no-key'):
+    for m in ('unknown-context', 'missing-target', 'dup-param', 'dup-result', 'result-count', 'garbage-cose', 'no-key',
+              'undecodable-block', 'no-params'):
         for blk in ('bib', 'bcb'):
             out.append(dict(kind='real', malform=m, blk=blk))
     return out
@@ -146,8 +147,16 @@ def harness(case, tier):
             results = [[(good[0], junk)]]
         elif m == 'no-key':
             pass     # well-formed message but no key with that kid in the (empty) key store
+        elif m == 'no-params':
+            params = None     # RFC 9172: the parameter list is optional
         expect_fail = True
-        blocks.append(dict(type=kind, num=2, flags=0, crc_type=0, data=sec_block_data(targets, ctxid, params, results)))
+        data = sec_block_data(targets, ctxid, params, results)
+        if m == 'undecodable-block':
+            # the security block's own structure is damaged: truncated, a bad scheme code in the security source,
+            # targets not an array, or not CBOR at all
+            good_data = bytes(data)
+            data = [good_data[:-3], good_data.replace(b'\x82\x01', b'\x82\x09', 1), b'\x01' + good_data[2:], b'\xff'][c.choose(4, 'damage')]
+        blocks.append(dict(type=kind, num=2, flags=0, crc_type=0, data=data))
     blocks.append(dict(type=1, num=1, flags=0, crc_type=0, data=payload))
     wire = rfc9171.encode_bundle(pri, blocks)
     w.recv(wire)
